@@ -11,7 +11,8 @@ PROP = {'counts': {'quick': 100, 'thorough': 6000},
          'calls returned); oracle = direct checks of own-writes / no-dirty-read / read-only snapshot / error '
          'contract plus a complete search for a serial order consistent with real time; non-trivial = some '
          'pair of transactions overlaps in real time, at least two read-write transactions, and some Get '
-         'returns a value committed by another transaction; distinct by case text',
+         'returns a value committed by another transaction; distinct by case text'
+         ' Added later: gen/TxFacts.v tx_mu_whole (every operation of a transaction object is one critical section of its own mutex: TxnFacts.tx_ops_atomic_ok, C04_operations_atomic) and a corpus case with values of length zero.',
  'assumptions': ["Go's sync.RWMutex provides mutual exclusion and happens-before; atomics are sequentially "
                  'consistent (Go memory model)',
                  'no writes outside transactions (the property excludes them); a client goroutine holds at '
